@@ -35,6 +35,11 @@ func (m *Multi) ClearLoaders() {
 // Open will open the file passed by trying all loaders in succession.
 func (m *Multi) Open(name string) (io.ReadCloser, error) {
 	for _, loader := range m.loaders {
+		// answer from the first loader that has the template (Exists), so that a directory
+		// of the same name in an earlier loader cannot shadow it
+		if !loader.Exists(name) {
+			continue
+		}
 		if f, err := loader.Open(name); err == nil {
 			return f, nil
 		}
